@@ -147,6 +147,8 @@ def run(chk):
     roles = Roles(cm, None)
     # roots: report(r1, r2) -> GlobalStats(r1.results) / GlobalStats(r2.results) -> _metrics_table(b, c, plain)
     rps = params_of(rep)
+    if len(rps) < 3:
+        raise AnchorMissing("ComparisonReporter.report(self, r1, r2)")
     roles.param_roles[("report", rps[1])] = {"B"}
     roles.param_roles[("report", rps[2])] = {"C"}
     changed = True
@@ -181,7 +183,11 @@ def run(chk):
     # report(): GlobalStats(r1.results) first
     mcalls = [n for n in walk_body(rep) if isinstance(n, ast.Call) and u(n.func) == "self._metrics_table"]
     renv = roles.env_for(rep)
-    ok = len(mcalls) == 2 and all(roles.deps(c.args[0], renv) == {"B"} and roles.deps(c.args[1], renv) == {"C"} for c in mcalls)
+    mtp = params_of(mt)
+    if len(mtp) < 4:
+        raise AnchorMissing("_metrics_table(self, baseline_stats, contender_stats, plain)")
+    mbind = [bind_args(c, mt) for c in mcalls]
+    ok = len(mcalls) == 2 and all(b_.get(mtp[1]) is not None and b_.get(mtp[2]) is not None and roles.deps(b_[mtp[1]], renv) == {"B"} and roles.deps(b_[mtp[2]], renv) == {"C"} for b_ in mbind)
     chk.ob("O20.2", "both tables built from (baseline, contender) in that order", ok, mcalls[0] if mcalls else rep, "")
 
     # ---- O20.3 difference and colours ----------------------------------------------------------------------------------------------------------------
@@ -189,71 +195,88 @@ def run(chk):
              "colour table plain -> identity x3, increase-good -> (+green, -red), decrease-good -> (+red, -green), between -> neutral; positive values get '+'", 14,
              "self-comparison not neutral, swapping the races does not flip sign/colour, or improvement/regression colours exchanged")
     dp = params_of(diff)
-    bpar, cpar, flagp = dp[1], dp[2], dp[3]
-    # colour selection as a decision over (plain, increase-good)
-    sel_if = [n for n in diff.body if isinstance(n, ast.If) and any(isinstance(x, ast.Assign) and isinstance(x.targets[0], ast.Name) and x.targets[0].id.startswith("color") for x in ast.walk(n))]
+    if len(dp) < 6:
+        raise AnchorMissing("_diff(self, baseline, contender, treat_increase_as_improvement, formatter, as_percentage)")
+    bpar, cpar, flagp, fmtp, pctp = dp[1], dp[2], dp[3], dp[4], dp[5]
+    from sa import minieval
+    from sa.classes import is_logging_stmt
+
+    def own_stmts(f):
+        """statements of a (nested) function without docstring and logging statements."""
+        return [s_ for s_ in f.body if not is_logging_stmt(s_) and not (isinstance(s_, ast.Expr) and isinstance(s_.value, ast.Constant))]
+
+    # colour selection: the top-level statement of _diff that branches on self.plain (attribute anchor; the colour locals are known by role only:
+    # the local called in the outcome for d > thr / d < -thr / between — see the value-evaluated decision below)
+    sel_if = [n for n in diff.body if isinstance(n, ast.If) and any(is_self_attr(x, "plain") for m in ast.walk(n) if isinstance(m, ast.If) for x in ast.walk(m.test))]
     if not sel_if:
         raise AnchorMissing("colour selection in _diff")
     want_tab = {(True, True): ("identity", "identity", "identity"), (True, False): ("identity", "identity", "identity"),
                 (False, True): ("console.format.green", "console.format.red", "console.format.neutral"), (False, False): ("console.format.red", "console.format.green", "console.format.neutral")}
-    colvars = None
-    for plain, inc in itertools.product([True, False], repeat=2):
-        def atom(n, env):
-            t = u(n)
-            if t == "self.plain":
-                return plain
-            if t == flagp:
-                return inc
-            return None
-
-        try:
-            pre = [s for s in diff.body[: diff.body.index(sel_if[0])] if isinstance(s, ast.Assign)]
-            out = decide(pre + [sel_if[0]], atom, {})
-        except (Unsupported, UnknownAtom) as e:
-            chk.unknown("O20.3", f"colour selection is not a decision over (plain, direction): {e}", sel_if[0])
-            break
-        bnd = getattr(out, "bindings", {})
-        names = sorted(k for k in bnd if k.startswith("color"))
-        g_, s_, n_ = (u(bnd.get("color_greater")) if bnd.get("color_greater") is not None else None, u(bnd.get("color_smaller")) if bnd.get("color_smaller") is not None else None,
-                      u(bnd.get("color_neutral")) if bnd.get("color_neutral") is not None else None)
-        mode = "plain" if plain else ("increase is improvement" if inc else "decrease is improvement")
-        chk.ob("O20.3", f"colours for {mode}{' (flag ' + str(inc) + ')' if plain else ''}", (g_, s_, n_) == want_tab[(plain, inc)], sel_if[0], f"(+, -, 0) -> ({g_}, {s_}, {n_}); expected {want_tab[(plain, inc)]}",
-               key=f"{_R}:_diff:colours:{plain}|{inc}")
     idf = [n for n in diff.body if isinstance(n, ast.FunctionDef) and n.name == "identity"]
-    ok = bool(idf) and len(idf[0].body) == 1 and isinstance(idf[0].body[0], ast.Return) and u(idf[0].body[0].value) == params_of(idf[0])[0]
+    ok = False
+    if idf and len(params_of(idf[0])) == 1:
+        ib = own_stmts(idf[0])
+        ok = len(ib) == 1 and isinstance(ib[0], ast.Return) and isinstance(ib[0].value, ast.Name) and ib[0].value.id == params_of(idf[0])[0]
     chk.ob("O20.3", "identity returns its argument", ok, idf[0] if idf else diff, "")
-    # difference formulas
-    dif_if = [n for n in diff.body if isinstance(n, ast.If) and u(n.test) == "as_percentage"]
+    # difference formulas: the absolute/relative branch is the top-level statement testing the as_percentage parameter; the difference is the one local bound
+    # there whose value depends on the operands (role, not name); which arm is which is decided by evaluating the test, not by arm position
+    dif_if = [n for n in diff.body if isinstance(n, ast.If) and n not in sel_if and any(isinstance(x, ast.Name) and x.id == pctp for x in ast.walk(n.test))]
     if not dif_if:
         raise AnchorMissing("absolute/relative branch in _diff")
     D = dif_if[0]
-    rel = [n for n in D.body if isinstance(n, ast.Assign) and u(n.targets[0]) == "diff"]
-    ab = [n for n in D.orelse if isinstance(n, ast.Assign) and u(n.targets[0]) == "diff"]
+
+    def mentions_operands(e):
+        return any(isinstance(x, ast.Name) and x.id in (bpar, cpar) for x in ast.walk(e))
+
+    def difference_in(pct):
+        """(value expression, assignment node) of the difference in the arm taken for as_percentage == pct."""
+        try:
+            o_ = decide([D], lambda n, env: (pct if isinstance(n, ast.Name) and n.id == pctp else None), {})
+        except (Unsupported, UnknownAtom):
+            return None, None
+        cand = [(k_, v_) for k_, v_ in getattr(o_, "bindings", {}).items() if v_ is not None and mentions_operands(v_)]
+        if o_.kind != "fallthrough" or len(cand) != 1:
+            return None, None
+        asg = [n for n in ast.walk(D) if isinstance(n, ast.Assign) and len(n.targets) == 1 and isinstance(n.targets[0], ast.Name) and n.targets[0].id == cand[0][0] and
+               (n.value is cand[0][1] or u(n.value) == u(cand[0][1]))]
+        return cand[0][1], (asg[0] if asg else D)
+
+    rel_v, rel_n = difference_in(True)
+    ab_v, ab_n = difference_in(False)
     sd = [n for n in diff.body if isinstance(n, ast.FunctionDef) and n.name == "_safe_divide"]
     ok = False
-    if rel and sd:
-        v = rel[0].value
+    if rel_v is not None and sd:
+        v = rel_v
         # _safe_divide(c - b, b) * 100.0
         if isinstance(v, ast.BinOp) and isinstance(v.op, ast.Mult):
             callp, factor = (v.left, v.right) if isinstance(v.left, ast.Call) else (v.right, v.left)
-            ok = isinstance(callp, ast.Call) and u(callp.func) == "_safe_divide" and rat_equal(callp.args[0], parse_expr(f"{cpar} - {bpar}")) and u(callp.args[1]) == bpar and isinstance(factor, ast.Constant) and factor.value == 100
-    chk.ob("O20.3", "relative difference == (contender - baseline) / baseline * 100", ok, rel[0] if rel else D, short(rel[0], 80) if rel else "")
+            ok = isinstance(callp, ast.Call) and u(callp.func) == "_safe_divide" and len(callp.args) == 2 and not callp.keywords and rat_equal(callp.args[0], parse_expr(f"{cpar} - {bpar}")) and \
+                u(callp.args[1]) == bpar and isinstance(factor, ast.Constant) and factor.value == 100
+    chk.ob("O20.3", "relative difference == (contender - baseline) / baseline * 100", ok, rel_n if rel_n is not None else D, short(rel_n, 80) if rel_n is not None else "")
     ok = False
-    if sd:
-        r = [n for n in walk_body(sd[0]) if isinstance(n, ast.Return)]
+    sd_detail = ""
+    if sd and len(params_of(sd[0])) == 2:
+        # evaluated on representative values (quotient when the divisor is not 0, 0 when it is): polarity / orientation / shape (conditional expression or if-chain) are irrelevant
         n_, d_ = params_of(sd[0])
-        if len(r) == 1 and isinstance(r[0].value, ast.IfExp):
-            ie = r[0].value
-            ok = rat_equal(ie.body, parse_expr(f"{n_} / {d_}")) and u(ie.test) in (d_, f"{d_} != 0") and source.is_const(ie.orelse, 0)
-    chk.ob("O20.3", "division is zero-safe (0 when the baseline is 0)", ok, sd[0] if sd else diff, "")
-    ok = bool(ab) and isinstance(ab[0].value, ast.Call) and u(ab[0].value.func) == "formatter" and rat_equal(ab[0].value.args[0], parse_expr(f"{cpar} - {bpar}"))
-    chk.ob("O20.3", "absolute difference == formatter(contender - baseline)", ok, ab[0] if ab else D, short(ab[0], 80) if ab else "")
+        try:
+            got = []
+            for nv_, dv_ in ((6, 3), (-6, 3), (1, 4), (0, 5), (6, -3), (6, 0), (0, 0), (-2, 0)):
+                env_ = {n_: nv_, d_: dv_}
+                o_ = decide(own_stmts(sd[0]), lambda n, env: bool(minieval.ev(n, env)), env_)
+                got.append(minieval.ev(o_.value, env_) if o_.kind == "return" and o_.value is not None else None)
+            want_ = [2, -2, 0.25, 0, -2, 0, 0, 0]
+            ok = all(g_ is not None and not isinstance(g_, bool) and g_ == w_ for g_, w_ in zip(got, want_))
+            sd_detail = "" if ok else f"(6,3) (-6,3) (1,4) (0,5) (6,-3) (6,0) (0,0) (-2,0) -> {got}"
+        except (Unsupported, UnknownAtom, minieval.CannotEval) as e:
+            sd_detail = f"cannot evaluate: {e}"
+    chk.ob("O20.3", "division is zero-safe (0 when the baseline is 0)", ok, sd[0] if sd else diff, sd_detail)
+    ok = ab_v is not None and isinstance(ab_v, ast.Call) and u(ab_v.func) == fmtp and len(ab_v.args) == 1 and not ab_v.keywords and rat_equal(ab_v.args[0], parse_expr(f"{cpar} - {bpar}"))
+    chk.ob("O20.3", "absolute difference == formatter(contender - baseline)", ok, ab_n if ab_n is not None else D, short(ab_n, 80) if ab_n is not None else "")
     # final decision evaluated over the five positions of d relative to the threshold t = 10^-precision: d in {2t, t, 0, -t, -2t}, in both modes.
     # Tests are evaluated on values (the difference operand is the one whose definition depends on the operands), so arm order, comparison orientation
     # and local names are irrelevant.
-    from sa import minieval
     sel_i = diff.body.index(sel_if[0])
-    tail = [s_ for s_ in diff.body[sel_i + 1:] if not isinstance(s_, ast.FunctionDef)]
+    tail = [s_ for s_ in diff.body[sel_i + 1:] if not isinstance(s_, ast.FunctionDef) and not is_logging_stmt(s_)]
     inputs = {bpar, cpar}
 
     def depends_on_inputs(e, b, depth=0):
@@ -290,57 +313,100 @@ def run(chk):
             out.append(("val", e))
         return out
 
-    table = {}
     thr_vals = {}
+    pre = [s_ for s_ in diff.body[:sel_i] if isinstance(s_, ast.Assign)]
+
+    class _CaseFailed(Exception):
+        pass
+
+    def run_case(plain, inc, pct, k):
+        """outcome of _diff for (self.plain, direction flag, as_percentage) and d == k * thr: (colour function, literal prefix, shows d, format spec, bindings)."""
+        cur = {}
+
+        def hook(s_, env, b):
+            cur["b"] = b
+            # `a = b = e` and `a, b = e1, e2` bind like the separate single assignments
+            if isinstance(s_, ast.Assign) and len(s_.targets) > 1 and all(isinstance(t_, ast.Name) for t_ in s_.targets):
+                v_ = source.inline_node(s_.value, {k_: x_ for k_, x_ in b.items() if x_ is not None}, depth=9)
+                for t_ in s_.targets:
+                    b[t_.id] = v_
+                return "skip"
+            if isinstance(s_, ast.Assign) and len(s_.targets) == 1 and isinstance(s_.targets[0], ast.Tuple) and isinstance(s_.value, ast.Tuple) and len(s_.targets[0].elts) == len(s_.value.elts) and \
+                    all(isinstance(t_, ast.Name) for t_ in s_.targets[0].elts) and not any(isinstance(x, ast.Name) and x.id in {t_.id for t_ in s_.targets[0].elts} for x in ast.walk(s_.value)):
+                vs_ = [source.inline_node(v_, {k_: x_ for k_, x_ in b.items() if x_ is not None}, depth=9) for v_ in s_.value.elts]
+                for t_, v_ in zip(s_.targets[0].elts, vs_):
+                    b[t_.id] = v_
+                return "skip"
+            return None
+
+        def atom(n, env):
+            b = cur.get("b", {})
+            if is_self_attr(n, "plain"):
+                return plain
+            if isinstance(n, ast.Name) and n.id == flagp:
+                return inc
+            if isinstance(n, ast.Name) and n.id == pctp:
+                return pct
+            if isinstance(n, ast.Compare) and len(n.ops) > 1:
+                # chained comparison: the conjunction of its links
+                links = [atom(ast.Compare(left=l_, ops=[o_], comparators=[r_]), env) for l_, o_, r_ in zip([n.left] + n.comparators[:-1], n.ops, n.comparators)]
+                return None if any(x is None for x in links) else all(links)
+            if isinstance(n, ast.Compare) and len(n.ops) == 1:
+                sides = [n.left, n.comparators[0]]
+                dep = [depends_on_inputs(x, b) for x in sides]
+                if dep.count(True) != 1:
+                    return None
+                other = sides[1 - dep.index(True)]
+                t = value_of(other, b)
+                thr_vals[pct] = abs(t)
+                d = k * abs(t)
+                l_, r_ = (d, t) if dep[0] else (t, d)
+                return minieval._CMP[type(n.ops[0])](l_, r_)
+            return None
+
+        try:
+            out = decide(pre + [sel_if[0]] + tail, atom, {}, on_stmt=hook)
+        except (Unsupported, UnknownAtom, minieval.CannotEval) as e:
+            raise _CaseFailed(f"{type(e).__name__}: {e}")
+        if out.kind != "return" or not isinstance(out.value, ast.Call) or len(out.value.args) != 1:
+            raise _CaseFailed(f"outcome for d = {k}t is {out.text()[:60]}, not a call of a colour function")
+        bnd = getattr(out, "bindings", {})
+        fn = out.value.func
+        fn_t = u(bnd[fn.id]) if isinstance(fn, ast.Name) and bnd.get(fn.id) is not None else u(fn)
+        parts = flat_fstring(out.value.args[0], bnd)
+        lead = "".join(t for kind, t in parts[: next((i for i, p_ in enumerate(parts) if p_[0] == "val"), len(parts))])
+        firstval = next((p_[1] for p_ in parts if p_[0] == "val"), None)
+        shows_d = firstval is not None and depends_on_inputs(firstval.value if isinstance(firstval, ast.FormattedValue) else firstval, bnd)
+        spec = ""
+        if isinstance(firstval, ast.FormattedValue) and firstval.format_spec is not None:
+            try:
+                spec = minieval.ev(firstval.format_spec, {k_: value_of(v_, bnd) for k_, v_ in bnd.items() if isinstance(v_, ast.Constant)})
+            except minieval.CannotEval:
+                spec = u(firstval.format_spec)
+        return fn_t, lead, shows_d, spec, bnd
+
+    # colour table over (plain, increase-good): the colour function applied for d > thr, d < -thr and in between, read off the evaluated outcomes in both output modes
+    for plain, inc in itertools.product([True, False], repeat=2):
+        try:
+            per_mode = {pct: tuple(run_case(plain, inc, pct, k)[0] for k in (2, -2, 0)) for pct in (False, True)}
+        except _CaseFailed as e:
+            chk.unknown("O20.3", f"colour selection is not a decision over (plain, direction): {e}", sel_if[0])
+            break
+        got3 = per_mode[False] if per_mode[False] != want_tab[(plain, inc)] or per_mode[True] == want_tab[(plain, inc)] else per_mode[True]
+        g_, s_, n_ = got3
+        mode = "plain" if plain else ("increase is improvement" if inc else "decrease is improvement")
+        chk.ob("O20.3", f"colours for {mode}{' (flag ' + str(inc) + ')' if plain else ''}", all(per_mode[pct] == want_tab[(plain, inc)] for pct in per_mode), sel_if[0],
+               f"(+, -, 0) -> ({g_}, {s_}, {n_}); expected {want_tab[(plain, inc)]}", key=f"{_R}:_diff:colours:{plain}|{inc}")
+
+    table = {}
     failed = None
     for pct in (True, False):
         for k in (2, 1, 0, -1, -2):
-            cur = {}
-
-            def hook(s_, env, b):
-                cur["b"] = b
-                return None
-
-            def atom(n, env):
-                b = cur.get("b", {})
-                if isinstance(n, ast.Name) and n.id == dp[5]:
-                    return pct
-                if isinstance(n, ast.Compare) and len(n.ops) == 1:
-                    sides = [n.left, n.comparators[0]]
-                    dep = [depends_on_inputs(x, b) for x in sides]
-                    if dep.count(True) != 1:
-                        return None
-                    other = sides[1 - dep.index(True)]
-                    t = value_of(other, b)
-                    thr_vals[pct] = abs(t)
-                    d = k * abs(t)
-                    l_, r_ = (d, t) if dep[0] else (t, d)
-                    return minieval._CMP[type(n.ops[0])](l_, r_)
-                return None
-
             try:
-                pre = [s_ for s_ in diff.body[:sel_i] if isinstance(s_, ast.Assign)]
-                out = decide(pre + [sel_if[0]] + tail, lambda n, env: (False if u(n) == "self.plain" else (True if u(n) == flagp else atom(n, env))), {}, on_stmt=hook)
-            except (Unsupported, UnknownAtom, minieval.CannotEval) as e:
-                failed = f"{type(e).__name__}: {e}"
+                table[(pct, k)] = run_case(False, True, pct, k)
+            except _CaseFailed as e:
+                failed = str(e)
                 break
-            if out.kind != "return" or not isinstance(out.value, ast.Call) or len(out.value.args) != 1:
-                failed = f"outcome for d = {k}t is {out.text()[:60]}, not a call of a colour function"
-                break
-            bnd = getattr(out, "bindings", {})
-            fn = out.value.func
-            fn_t = u(bnd[fn.id]) if isinstance(fn, ast.Name) and bnd.get(fn.id) is not None else u(fn)
-            parts = flat_fstring(out.value.args[0], bnd)
-            lead = "".join(t for kind, t in parts[: next((i for i, p_ in enumerate(parts) if p_[0] == "val"), len(parts))])
-            firstval = next((p_[1] for p_ in parts if p_[0] == "val"), None)
-            shows_d = firstval is not None and depends_on_inputs(firstval.value if isinstance(firstval, ast.FormattedValue) else firstval, bnd)
-            spec = ""
-            if isinstance(firstval, ast.FormattedValue) and firstval.format_spec is not None:
-                try:
-                    spec = minieval.ev(firstval.format_spec, {k_: value_of(v_, bnd) for k_, v_ in bnd.items() if isinstance(v_, ast.Constant)})
-                except minieval.CannotEval:
-                    spec = u(firstval.format_spec)
-            table[(pct, k)] = (fn_t, lead, shows_d, spec, bnd)
         if failed:
             break
     final = [n for n in tail if isinstance(n, ast.If) and any(isinstance(x, ast.Return) for x in ast.walk(n))]
@@ -371,10 +437,37 @@ def run(chk):
     # _line passes the same operands and flag to both _diff calls, in order
     dcalls = [n for n in walk_body(line) if isinstance(n, ast.Call) and u(n.func) == "self._diff"]
     lp = params_of(line)
-    ok = len(dcalls) == 2 and all([u(a) for a in c.args[:4]] == [lp[2], lp[3], lp[6], lp[7]] for c in dcalls) and sum(1 for c in dcalls if any(k.arg == "as_percentage" and source.is_const(k.value, True) for k in c.keywords)) == 1
+    if len(lp) < 8:
+        raise AnchorMissing("_line(self, metric, baseline, contender, task, unit, treat_increase_as_improvement, formatter)")
+    ldefs = local_defs(line)
+
+    def is_param(e, name):
+        """e is the parameter `name` of _line (possibly through a single-assignment local)."""
+        e = ldefs.get(e.id, e) if isinstance(e, ast.Name) and e.id not in lp else e
+        return isinstance(e, ast.Name) and e.id == name
+
+    def relative(c):
+        v = bind_args(c, diff).get(pctp)
+        if v is None:
+            return False
+        return True if source.is_const(v, True) else (False if source.is_const(v, False) else None)
+
+    def passes_operands(c):
+        b_ = bind_args(c, diff)
+        return not any(isinstance(a, ast.Starred) for a in c.args) and all(b_.get(p_) is not None and is_param(b_[p_], q_) for p_, q_ in ((bpar, lp[2]), (cpar, lp[3]), (flagp, lp[6]), (fmtp, lp[7])))
+
+    ok = len(dcalls) == 2 and all(passes_operands(c) for c in dcalls) and sorted(str(relative(c)) for c in dcalls) == ["False", "True"]
     chk.ob("O20.3", "_line -> _diff(baseline, contender, flag, formatter) twice (absolute, relative)", ok, line, "")
     row = [n for n in walk_body(line) if isinstance(n, ast.Return) and isinstance(n.value, ast.List) and len(n.value.elts) == 7]
-    ok = bool(row) and u(row[0].value.elts[2]) == f"formatter({lp[2]})" and u(row[0].value.elts[3]) == f"formatter({lp[3]})" and u(row[0].value.elts[0]) == lp[1]
+    ok = False
+    if row:
+        el = [ldefs.get(e.id, e) if isinstance(e, ast.Name) and e.id not in lp else e for e in row[0].value.elts]
+
+        def formatted(e, name):
+            return isinstance(e, ast.Call) and is_param(e.func, lp[7]) and len(e.args) == 1 and not e.keywords and is_param(e.args[0], name)
+
+        ok = is_param(el[0], lp[1]) and formatted(el[2], lp[2]) and formatted(el[3], lp[3]) and any(isinstance(x, ast.Name) and x.id == lp[4] for x in ast.walk(el[1])) and is_param(el[5], lp[5]) and \
+            el[4] in dcalls and relative(el[4]) is False and el[6] in dcalls and relative(el[6]) is True
     chk.ob("O20.3", "row == [metric, task, baseline, contender, diff, unit, diff %]", ok, row[0] if row else line, "")
 
     # ---- O20.4 plain vs rich ---------------------------------------------------------------------------------------------------------------------------------
@@ -389,12 +482,16 @@ def run(chk):
     chk.ob("O20.4", "no colour formatting outside _diff in the comparison reporter", not cols, cols[0] if cols else CR, "")
     ok = len(mcalls) == 2
     if ok:
-        a, b = mcalls
-        pa, pb = arg_of(a, 2, "plain"), arg_of(b, 2, "plain")
-        ok = u(a.args[0]) == u(b.args[0]) and u(a.args[1]) == u(b.args[1]) and isinstance(pa, ast.Constant) and isinstance(pb, ast.Constant) and {pa.value, pb.value} == {True, False}
+        a, b = mbind
+        pa, pb = a.get(mtp[3]), b.get(mtp[3])
+        ok = all(a.get(p_) is not None and b.get(p_) is not None and u(a[p_]) == u(b[p_]) for p_ in (mtp[1], mtp[2])) and isinstance(pa, ast.Constant) and isinstance(pb, ast.Constant) and \
+            {pa.value, pb.value} == {True, False} and isinstance(pa.value, bool) and isinstance(pb.value, bool)
     chk.ob("O20.4", "both tables from the same routine, only `plain` differs", ok, mcalls[0] if mcalls else rep, "")
     sets = [n for n in walk_body(mt) if isinstance(n, ast.Assign) and any(is_self_attr(t, "plain") for t in n.targets)]
-    ok = len(sets) == 1 and u(sets[0].value) == params_of(mt)[3] and mt.body.index(sets[0]) == 0
+    # "before building lines": an unconditional top-level assignment that no call of a method of the reporter precedes (logging and other statements in front do not matter)
+    ok = len(sets) == 1 and isinstance(sets[0].value, ast.Name) and sets[0].value.id == mtp[3] and sets[0] in mt.body and \
+        not any(isinstance(x, ast.Call) and isinstance(x.func, ast.Attribute) and isinstance(x.func.value, ast.Name) and x.func.value.id == params_of(mt)[0] and x.func.attr in cm
+                for s_ in mt.body[: mt.body.index(sets[0])] for x in ast.walk(s_))
     chk.ob("O20.4", "_metrics_table sets the flag from its parameter before building lines", ok, sets[0] if sets else mt, "")
     wr = cm.get("_write_report")
     rdefs = local_defs(rep)
@@ -406,19 +503,24 @@ def run(chk):
 
         def plain_of(e):
             d = rdefs.get(e.id) if isinstance(e, ast.Name) else e
-            p_ = arg_of(d, 2, "plain") if isinstance(d, ast.Call) else None
+            p_ = bind_args(d, mt).get(mtp[3]) if isinstance(d, ast.Call) and u(d.func) == "self._metrics_table" else None
             return p_.value if isinstance(p_, ast.Constant) else None
 
         wsr = [n for n in walk_body(wr) if isinstance(n, ast.Call) and last_attr(n.func) == "write_single_report"]
         if wsr:
             dp_, dr_ = arg_of(wsr[0], None, "data_plain"), arg_of(wsr[0], None, "data_rich")
-            ok = dp_ is not None and dr_ is not None and plain_of(bw[u(dp_)]) is True and plain_of(bw[u(dr_)]) is False
+            ok = dp_ is not None and dr_ is not None and bw.get(u(dp_)) is not None and bw.get(u(dr_)) is not None and plain_of(bw[u(dp_)]) is True and plain_of(bw[u(dr_)]) is False
     chk.ob("O20.4", "plain table -> data_plain, rich table -> data_rich", ok, wcall[0] if wcall else rep, "")
     ws = rp.func("write_single_report")
-    fm = [n for n in walk_body(ws) if isinstance(n, ast.Call) and u(n.func) == "formatter"]
+    if not {"data_plain", "data_rich"} <= set(params_of(ws)):
+        raise AnchorMissing("write_single_report(..., data_plain, data_rich)")
+    # the formatter by role: the local called on (headers, <one of the two data parameters>); both outputs must go through the same one
+    fm = [n for n in walk_body(ws) if isinstance(n, ast.Call) and isinstance(n.func, ast.Name) and len(n.args) == 2 and not n.keywords and
+          isinstance(n.args[1], ast.Name) and n.args[1].id in ("data_plain", "data_rich")]
     to_console = [n for n in fm if isinstance(source.parent(n), ast.Call) and last_attr(source.parent(n).func) == "print_internal"]
     to_file = [n for n in fm if isinstance(source.parent(n), ast.Call) and last_attr(source.parent(n).func) in ("writelines", "write")]
-    ok = len(to_console) == 1 and len(to_file) == 1 and u(to_console[0].args[1]) == "data_rich" and u(to_file[0].args[1]) == "data_plain" and u(to_console[0].args[0]) == u(to_file[0].args[0])
+    ok = len(to_console) == 1 and len(to_file) == 1 and u(to_console[0].args[1]) == "data_rich" and u(to_file[0].args[1]) == "data_plain" and u(to_console[0].args[0]) == u(to_file[0].args[0]) and \
+        to_console[0].func.id == to_file[0].func.id
     chk.ob("O20.4", "same formatter: rich -> console, plain -> file", ok, ws, "")
 
     # ---- O20.5 only common metrics --------------------------------------------------------------------------------------------------------------------------------
@@ -427,11 +529,24 @@ def run(chk):
     row_guard = guards(row[0]) if row else []
     for bn, cn in itertools.product([False, True], repeat=2):
         def atom(n, env):
-            t = u(n)
-            return {f"{lp[2]} is not None": not bn, f"{lp[3]} is not None": not cn, f"{lp[2]} is None": bn, f"{lp[3]} is None": cn}.get(t)
+            # `<operand> is [not] None` in either orientation (== / != None read the same); anything else about the operands is not an atom (UnknownAtom)
+            if isinstance(n, ast.Compare) and len(n.ops) == 1 and isinstance(n.ops[0], (ast.Is, ast.IsNot, ast.Eq, ast.NotEq)):
+                sides = [n.left, n.comparators[0]]
+                none = [isinstance(x, ast.Constant) and x.value is None for x in sides]
+                if none.count(True) == 1:
+                    other = sides[1 - none.index(True)]
+                    if isinstance(other, ast.Name) and other.id in (lp[2], lp[3]):
+                        is_none = bn if other.id == lp[2] else cn
+                        return is_none if isinstance(n.ops[0], (ast.Is, ast.Eq)) else not is_none
+            return None
 
         try:
-            val = all(bool_eval(t, lambda n: atom(n, {})) == pol for t, pol in row_guard) and bool(row_guard)
+            try:
+                # the whole body of _line evaluated for the case: a line is emitted iff the outcome is the 7-element row (early returns / arm order do not matter)
+                o_ = decide(own_stmts(line), atom, {})
+                val = bool(row) and o_.kind == "return" and (o_.node is row[0] or (isinstance(o_.value, ast.List) and len(o_.value.elts) == 7))
+            except Unsupported:
+                val = all(bool_eval(t, lambda n: atom(n, {})) == pol for t, pol in row_guard) and bool(row_guard)
             chk.ob("O20.5", f"line when baseline {'None' if bn else 'present'}, contender {'None' if cn else 'present'}", val == (not bn and not cn), row[0] if row else line, f"emits: {val}")
         except UnknownAtom as e:
             chk.ob("O20.5", "line guard", False, line, f"guard tests something else than None-ness: {e} (a value of 0 must still be compared)")
@@ -448,6 +563,27 @@ def run(chk):
                 coll = coll.args[0]
             ok = isinstance(coll, ast.Call) and last_attr(coll.func) == "tasks" and u(coll.func.value) != u(tl[0].iter.func.value)
             detail = f"`{u(tl[0].target)}` of {u(tl[0].iter)} kept when in {u(coll)}"
+            if ok and isinstance(tl[0].target, ast.Name):
+                # polarity by evaluation of the loop body: lines for the task are produced when it is a member of the other race's tasks and none when it is not
+                # (`if t in X: ...` and `if t not in X: continue` read the same); switches on reporter attributes are taken as on
+                def produces(member):
+                    def atom(n, env):
+                        if any(n is t_ for t_ in tests):
+                            return member if isinstance(n.ops[0], ast.In) else not member
+                        if isinstance(n, ast.Attribute) and isinstance(n.value, ast.Name) and n.value.id == params_of(mt)[0]:
+                            return True
+                        return None
+
+                    o_ = decide(tl[0].body, atom, {})
+                    return any(isinstance(c_, ast.Call) and isinstance(c_.func, ast.Attribute) and isinstance(c_.func.value, ast.Name) and c_.func.value.id == params_of(mt)[0] and c_.func.attr in cm and
+                               any(isinstance(a_, ast.Name) and a_.id == tl[0].target.id for a_ in c_.args) for e_ in o_.effects for c_ in ast.walk(e_))
+
+                try:
+                    ok = produces(True) and not produces(False)
+                    if not ok:
+                        detail += "; but the per-task lines are not produced exactly for the members"
+                except (Unsupported, UnknownAtom):
+                    pass
     chk.ob("O20.5", "per-task lines for the intersection of tasks", ok, tl[0] if tl else mt, detail)
     # the task list is consulted once per baseline task: it must be a re-iterable collection (a generator would be exhausted by the first membership test)
     met_ = repo.module("esrally/metrics.py")
@@ -479,7 +615,7 @@ def run(chk):
                             chk.ob("O20.5", f"{f.name}: guard on `{u(opnd)}`", False, n, f"`{u(n.test)}` tests the compared value by truthiness: a value of 0 drops the line (and breaks swap symmetry / self-comparison)",
                                    key=f"{_R}:{f.name}:truthiness:{u(opnd)}")
                         c_ = comparison(a)
-                        if c_ and u(c_[0]) == u(opnd) and c_[1] in ("is", "is not"):
+                        if c_ and c_[1] in ("is", "is not") and ((u(c_[0]) == u(opnd) and u(c_[2]) == "None") or (u(c_[2]) == u(opnd) and u(c_[0]) == "None")):
                             n_guard += 1
                             chk.ob("O20.5", f"{f.name}: `{u(a)}`", True, n, "")
     # asymmetric None guards -> advisory
